@@ -85,6 +85,7 @@ type world struct {
 	// whole world (a package-level `var idMatcher = match.Type[string]("id")` used by many tests)
 	matcherCache map[string]bothMatcher
 	pkgTurn  bool
+	dirsBefore map[string]bool
 	bufTurn  bool
 	// a `nest` op arms one Match* call that is made from INSIDE a user-defined matcher of the next
 	// json/sajson/yaml op (a re-entrant call); its result line is held back until the outer call returned
@@ -106,10 +107,13 @@ func (w *world) abs(rel string) string {
 // stamp sets every file's mtime to the sentinel and returns the set of files
 func (w *world) stamp() map[string]bool {
 	files := map[string]bool{}
+	w.dirsBefore = map[string]bool{}
 	filepath.Walk(w.root, func(p string, info os.FileInfo, err error) error {
 		if err == nil && !info.IsDir() {
 			os.Chtimes(p, verifSentinel, verifSentinel)
 			files[p] = true
+		} else if err == nil {
+			w.dirsBefore[p] = true
 		}
 		return nil
 	})
@@ -123,6 +127,12 @@ func (w *world) changes(before map[string]bool) (written, removed []string) {
 			now[p] = true
 			if !info.ModTime().Equal(verifSentinel) {
 				written = append(written, p)
+			}
+		} else if err == nil && w.dirsBefore != nil && !w.dirsBefore[p] {
+			// a directory that did not exist before the operation and holds nothing: the operation created a
+			// directory without writing a file into it (reported as a write of "<dir>/")
+			if ents, e := os.ReadDir(p); e == nil && len(ents) == 0 {
+				written = append(written, p+"/")
 			}
 		}
 		return nil
